@@ -473,6 +473,89 @@ def loop_facts(csrc):
     return out
 
 
+def cookie_facts(src, msrc):
+    """_process_ike_sa_negotiation_request: the cookie check and its position relative to any negotiation work;
+    process_ike_sa_init_response: the retry; PayloadNOTIFY.from_exception: the COOKIE notify."""
+    out = {}
+    fn = src.func('IkeSa._process_ike_sa_negotiation_request')
+    st = _stmts(fn)
+    texts = [ast.unparse(s) for s in st]
+    want_first = ['payload_sa = request.get_payload(Payload.Type.SA, encrypted)',
+                  'payload_nonce = request.get_payload(Payload.Type.NONCE, encrypted)',
+                  'payload_ke = request.get_payload(Payload.Type.KE, encrypted)']
+    if texts[:3] != want_first:
+        src.fail(fn, 'negotiation request: the three payload lookups no longer come first')
+    ck = st[3]
+    if not (isinstance(ck, ast.If) and ast.unparse(ck.test) == 'self.cookie_secret is not None' and not ck.orelse):
+        src.fail(ck, 'negotiation request: the cookie check must directly follow the payload lookups')
+    body = ck.body
+    exp = body[0]
+    if not (isinstance(exp, ast.Assign) and ast.unparse(exp.targets[0]) == 'expected_cookie'):
+        src.fail(exp, 'cookie check: expected_cookie assignment expected')
+    call = exp.value
+    if not (isinstance(call, ast.Call) and ast.unparse(call.func) ==
+            'HMAC(self.cookie_secret, request.spi_i + payload_nonce.nonce + self.peer_addr.packed, '
+            'digestmod=hashlib.sha256).digest'):
+        src.fail(exp, 'cookie is no longer HMAC-SHA256(secret, SPIi | Ni | peer address)')
+    if ast.unparse(body[1]) != 'received_cookies = request.get_notifies(PayloadNOTIFY.Type.COOKIE)':
+        src.fail(body[1], 'cookie check: received cookies lookup changed')
+    test = body[2]
+    if not (isinstance(test, ast.If) and not test.orelse and len(body) == 3):
+        src.fail(test, 'cookie check: rejection test shape changed')
+    raise_ = [s for s in test.body if not _is_log(s)]
+    if len(raise_) != 1 or ast.unparse(raise_[0]) != "raise CookieRequired('COOKIE is required', cookie=expected_cookie)":
+        src.fail(test, 'cookie check: rejection must raise CookieRequired carrying the expected cookie')
+
+    class Sub(ast.NodeTransformer):
+        def visit_Compare(self, node):
+            t = ast.unparse(node)
+            if t == 'received_cookies[0].notification_data != expected_cookie':
+                return ast.UnaryOp(op=ast.Not(), operand=ast.Name(id='first_equal', ctx=ast.Load()))
+            if t == 'received_cookies[0].notification_data == expected_cookie':
+                return ast.Name(id='first_equal', ctx=ast.Load())
+            return self.generic_visit(node)
+
+        def visit_Call(self, node):
+            if ast.unparse(node) == 'len(received_cookies)':
+                return ast.Name(id='ncookies', ctx=ast.Load())
+            return self.generic_visit(node)
+    t2 = ast.fix_missing_locations(Sub().visit(ast.parse(ast.unparse(test.test), mode='eval').body))
+    out['cookie_reject'] = expr_to_gallina(src, t2, {'ncookies': 'ncookies', 'first_equal': ('first_equal', 'bool')})[0]
+    # nothing of the negotiation happens before the check: the first later statements
+    rest = ' '.join(texts[4:])
+    for needle in ('_select_best_sa_proposal', 'PayloadNONCE()', 'DiffieHellman.from_group', 'compute_secret',
+                   'generate_ike_sa_key_material'):
+        if needle not in rest:
+            src.fail(fn, f'negotiation request: {needle} not found after the cookie check')
+    before = ' '.join(texts[:3])
+    for needle in ('DiffieHellman', 'PayloadNONCE()', 'urandom', '_select_best_sa_proposal'):
+        if needle in before:
+            src.fail(fn, f'negotiation request: {needle} happens before the cookie check')
+    # process_ike_sa_init_request: state check, then straight into the negotiation
+    fn = src.func('IkeSa.process_ike_sa_init_request')
+    t = [ast.unparse(s) for s in _stmts(fn)]
+    if t[:2] != ['self._check_in_states(request, [IkeSa.State.INITIAL])',
+                 'response_payloads = self._process_ike_sa_negotiation_request(request, False)']:
+        src.fail(fn, 'process_ike_sa_init_request no longer starts with the state check and the negotiation')
+    # initiator retry
+    fn = src.func('IkeSa.process_ike_sa_init_response')
+    ck = [s for s in _stmts(fn) if isinstance(s, ast.If) and ast.unparse(s.test) == 'cookie']
+    if len(ck) != 1:
+        src.fail(fn, 'initiator cookie retry not found')
+    body = [ast.unparse(s) for s in ck[0].body if not _is_log(s)]
+    if body != ['self.request.payloads.insert(0, cookie[0])', 'self.ike_sa_init_req_data = self.request.to_bytes()',
+                'self.my_msg_id = 0', 'return self.request']:
+        src.fail(ck[0], f'initiator cookie retry changed: {body}')
+    # COOKIE notify built from the exception
+    fe = msrc.func('PayloadNOTIFY.from_exception')
+    tx = ast.unparse(fe)
+    if 'CookieRequired: PayloadNOTIFY.Type.COOKIE' not in tx or \
+            'elif type(ex) is CookieRequired:\n        notification_data = ex.cookie' not in tx:
+        msrc.fail(fe, 'from_exception no longer maps CookieRequired to N(COOKIE) carrying the cookie')
+    out['COOKIE'] = dict(msrc.enum('PayloadNOTIFY.Type'))['COOKIE']
+    return out
+
+
 def translate(ctx=None):
     src = pyast.Src(os.path.join(core.REPO, 'ikesa.py'))
     msrc = pyast.Src(os.path.join(core.REPO, 'message.py'))
@@ -485,6 +568,7 @@ def translate(ctx=None):
     stamps = stamp_facts(src)
     trig = trigger_facts(src)
     loopf = loop_facts(csrc)
+    cook = cookie_facts(src, msrc)
     adm = admission_facts(src)
     ctl = controller_facts(csrc, src)
     exd = dict(exch)
@@ -539,6 +623,9 @@ def translate(ctx=None):
     L.append(f'Definition dispatch_arm_cookie (halfopen : Z) : bool := {ctl["arm_cookie"]}.')
     L.append(f'Definition dispatch_register_successor (st : Z) (has_successor : bool) : bool := {ctl["register_successor"]}.')
     L.append(f'Definition dispatch_remove (st : Z) : bool := {ctl["remove_deleted"]}.')
+    L.append('\n(* cookie check of _process_ike_sa_negotiation_request (it precedes every negotiation step) *)')
+    L.append(f'Definition cookie_reject (ncookies : Z) (first_equal : bool) : bool := {cook["cookie_reject"]}.')
+    L.append(f'Definition N_COOKIE : Z := {cook["COOKIE"]}.')
     L.append('\n(* admission: (function, kind, states) *)')
     L.append('Inductive adm_kind := Admit | Assert.')
     L.append('Definition admissions : list (nat * adm_kind * list Z) := [')
